@@ -176,13 +176,17 @@ Proof. reflexivity. Qed.
 Lemma existsb_jeq_str : forall s l, existsb (jeq (JStr s)) (map JStr l) = mem_str s l.
 Proof.
   intros s l. induction l as [|x r IH]; [reflexivity|].
-  cbn [map existsb mem_str jeq]. rewrite IH. reflexivity.
+  change (existsb (jeq (JStr s)) (map JStr (x :: r)))
+    with (String.eqb s x || existsb (jeq (JStr s)) (map JStr r)).
+  rewrite IH. reflexivity.
 Qed.
 
 Lemma juniq_strs : forall l, juniq (map JStr l) = nodup_str l.
 Proof.
   induction l as [|x r IH]; [reflexivity|].
-  cbn [map juniq nodup_str]. rewrite existsb_jeq_str, IH. reflexivity.
+  change (juniq (map JStr (x :: r)))
+    with (negb (existsb (jeq (JStr x)) (map JStr r)) && juniq (map JStr r)).
+  rewrite existsb_jeq_str, IH. reflexivity.
 Qed.
 
 (* ---------- the oneOf's of "parameter" and "responseValue" have exclusive branches ---------- *)
@@ -218,7 +222,7 @@ Corollary valid_parameter_or : forall j,
   valid_parameter j = valid_body_parameter j || valid_non_body_parameter j.
 Proof.
   intro j. unfold valid_parameter. rewrite exactly_one_2.
-  destruct (valid_body_parameter j) eqn:E; [|reflexivity].
+  destruct (valid_body_parameter j) eqn:E; [|destruct (valid_non_body_parameter j); reflexivity].
   rewrite (body_excludes_non_body j E). reflexivity.
 Qed.
 
@@ -238,7 +242,7 @@ Corollary valid_response_value_or : forall j,
   valid_response_value j = valid_response j || valid_json_reference j.
 Proof.
   intro j. unfold valid_response_value. rewrite exactly_one_2.
-  destruct (valid_response j) eqn:E; [|reflexivity].
+  destruct (valid_response j) eqn:E; [|destruct (valid_json_reference j); reflexivity].
   rewrite (response_excludes_reference j E). reflexivity.
 Qed.
 
